@@ -44,7 +44,7 @@ World* make_world(World& w, int mA, int mB, bool natA = false)
 	};
 	w.mtu = [mA, mB](ip::address a, ip::address b) {
 		auto is = [&](const char* x) { return a == addr(x) || b == addr(x); };
-		if (is("10.0.0.1")) return mA; if (is("10.0.0.2")) return mB; if (is("99.0.0.1")) return 3000; return 1475;
+		if (is("10.0.0.1") || is("fe80::a1")) return mA; if (is("10.0.0.2")) return mB; if (is("99.0.0.1")) return 3000; return 1475;
 	};
 	return &w;
 }
@@ -142,20 +142,21 @@ Res run_tcp(int mA, int mB, int scode, int layout, int mode /* 0 two client node
 }
 
 // df: 0 never touched, 1 set, 2 set then cleared, 3 set and then an unrelated option (IP_TTL) set ; dir: 0 A->S, 1 S->A
-Res run_udp(int mtu, int scode, int df, int dir, bool multihomed, bool busy = false)
+Res run_udp(int mtu, int scode, int df, int dir, bool multihomed, bool busy = false, bool v6 = false)
 {
 	Res R; World w; make_world(w, mtu, 1475);
 	sim::simulation sim(w);
-	std::unique_ptr<asio::io_context> nA_(multihomed ? new asio::io_context(sim, std::vector<ip::address>{ addr("10.0.0.1"), addr("10.0.0.2") }) : new asio::io_context(sim, addr("10.0.0.1")));
-	asio::io_context& nA = *nA_; asio::io_context nS(sim, addr("10.0.1.1"));
+	std::unique_ptr<asio::io_context> nA_(multihomed ? new asio::io_context(sim, std::vector<ip::address>{ addr("10.0.0.1"), addr("10.0.0.2") }) : v6 ? new asio::io_context(sim, std::vector<ip::address>{ addr("10.0.0.1"), addr("fe80::a1") }) : new asio::io_context(sim, addr("10.0.0.1")));
+	asio::io_context& nA = *nA_; asio::io_context nS(sim, v6 ? std::vector<ip::address>{ addr("10.0.1.1"), addr("fe80::51") } : std::vector<ip::address>{ addr("10.0.1.1") });
+	const char* A_ADDR = v6 ? "fe80::a1" : "10.0.0.1"; const char* S_ADDR = v6 ? "fe80::51" : "10.0.1.1";
 	ip::udp::socket a(nA), s(nS), a2(nA);
 	if (multihomed && dir == 0) {
 		// another socket of the same node, on its other address (path MTU 1475 towards the same destination), sends a small datagram first
 		a2.open(ip::udp::v4()); a2.bind(ip::udp::endpoint(addr("10.0.0.2"), 4001)); a2.non_blocking(true);
 		error_code e0; a2.send_to(asio::buffer("x", 1), ip::udp::endpoint(addr("10.0.1.1"), 5999), 0, e0); // (to an unbound port: not delivered anywhere)
 	}
-	a.open(ip::udp::v4()); a.bind(ip::udp::endpoint(addr("10.0.0.1"), 4000)); a.non_blocking(true);
-	s.open(ip::udp::v4()); s.bind(ip::udp::endpoint(addr("10.0.1.1"), 5000)); s.non_blocking(true);
+	a.open(v6 ? ip::udp::v6() : ip::udp::v4()); a.bind(ip::udp::endpoint(addr(A_ADDR), 4000)); a.non_blocking(true);
+	s.open(v6 ? ip::udp::v6() : ip::udp::v4()); s.bind(ip::udp::endpoint(addr(S_ADDR), 5000)); s.non_blocking(true);
 	ip::udp::socket& tx = dir == 0 ? a : s; ip::udp::socket& rx = dir == 0 ? s : a;
 	error_code ec;
 	if (df >= 1) { tx.set_option(DfOpt{ IP_PMTUDISC_DO }, ec); }
@@ -174,7 +175,7 @@ Res run_udp(int mtu, int scode, int df, int dir, bool multihomed, bool busy = fa
 		for (; fillers < 5000 && !fe; ++fillers) tx.send_to(asio::buffer(f7), dir == 0 ? ip::udp::endpoint(addr("10.0.1.1"), 5998) : ip::udp::endpoint(addr("10.0.0.1"), 5998), 0, fe);
 		if (ecs(fe) != "would_block") R.fails.push_back(fmt("harness: the send buffer did not fill up after %d small datagrams (%s)", fillers, ecs(fe).c_str()));
 	}
-	std::size_t ret = tx.send_to(asio::buffer(pl), dir == 0 ? ip::udp::endpoint(addr("10.0.1.1"), 5000) : ip::udp::endpoint(addr("10.0.0.1"), 4000), 0, ec);
+	std::size_t ret = tx.send_to(asio::buffer(pl), dir == 0 ? ip::udp::endpoint(addr(S_ADDR), 5000) : ip::udp::endpoint(addr(A_ADDR), 4000), 0, ec);
 	sim.run();
 	size_t wire = 0; for (auto& p : w.log) { ++R.transitions; if (p.probe == 0 && p.type == sim::aux::packet::type_t::payload && !(busy && p.payload == 7)) ++wire; }
 	bool over = size > mtu; bool expect_drop = over && (df == 1 || df == 3);
@@ -203,10 +204,11 @@ struct MtuEngine : Engine
 		for (int mh = 0; mh < 4; ++mh) for (int a = 0; a < 4; ++a) for (int b = 0; b < 4; ++b) for (int s = 0; s < 7; ++s) for (int l = 0; l < 3; ++l) all.push_back(U{ 0, MTUS[a], MTUS[b], s, l, mh });
 		for (int mh = 0; mh < 2; ++mh) for (int a = 0; a < 4; ++a) for (int s = 0; s < 7; ++s) for (int df = 0; df < 4; ++df) for (int dir = 0; dir < 2; ++dir) all.push_back(U{ 1, MTUS[a], s, df, dir, mh });
 		for (int a = 0; a < 4; ++a) for (int s = 0; s < 7; ++s) for (int df = 0; df < 3; ++df) for (int dir = 0; dir < 2; ++dir) { U u{ 1, MTUS[a], s, df, dir, 0 }; u.busy = 1; all.push_back(u); }
+		for (int a = 0; a < 4; ++a) for (int s = 0; s < 7; ++s) for (int df = 0; df < 4; ++df) for (int dir = 0; dir < 2; ++dir) { U u{ 1, MTUS[a], s, df, dir, 0 }; u.busy = 2; all.push_back(u); } // the same over IPv6 sockets
 		return all.size();
 	}
-	Res exec(U const& u) { return u.kind == 0 ? run_tcp(u.a, u.b, u.c, u.d, u.mh) : run_udp(u.a, u.b, u.c, u.d, u.mh != 0, u.busy != 0); }
-	std::string ustr(U const& u) { return (u.kind == 0 ? fmt("tcp mtu(A,S)=%d mtu(B,S)=%d size-code %d layout %d", u.a, u.b, u.c, u.d) : fmt("udp mtu=%d size-code %d df=%d dir=%d", u.a, u.b, u.c, u.d)) + (u.mh == 1 ? " [both client addresses on one multi-homed node]" : u.mh == 2 ? " [connector A behind a NAT]" : u.mh == 3 ? " [both sockets move-constructed once established]" : "") + (u.busy ? " [send buffer full]" : ""); }
+	Res exec(U const& u) { return u.kind == 0 ? run_tcp(u.a, u.b, u.c, u.d, u.mh) : run_udp(u.a, u.b, u.c, u.d, u.mh != 0, u.busy == 1, u.busy == 2); }
+	std::string ustr(U const& u) { return (u.kind == 0 ? fmt("tcp mtu(A,S)=%d mtu(B,S)=%d size-code %d layout %d", u.a, u.b, u.c, u.d) : fmt("udp mtu=%d size-code %d df=%d dir=%d", u.a, u.b, u.c, u.d)) + (u.mh == 1 ? " [both client addresses on one multi-homed node]" : u.mh == 2 ? " [connector A behind a NAT]" : u.mh == 3 ? " [both sockets move-constructed once established]" : "") + (u.busy == 1 ? " [send buffer full]" : u.busy == 2 ? " [IPv6 sockets]" : ""); }
 	void run_unit(uint64_t i, Ctx& ctx) override
 	{
 		if (!ctx.next_case()) return;
